@@ -16,8 +16,8 @@ PROPS = {
                 explanation="[P] tokenisers, label/name extraction, Program.match item accounting, SequenceBase.match; [B] lexical content of printed "
                             "text vs source (bounded_tokens.py), layout independence of the reader items (bounded_layout.py)",
                 enum=["bounded_tokens.py", "bounded_layout.py --only C04"],
-                witnesses=["c02_units_dropped_around_anonymous_main", "c02_char_selector_placeholder_leak", "c02_char_selector_kind_len_reordered",
-                           "c02_semicolon_join_lowercases_names"]),
+                witnesses=["c02_tab_inside_character_literal_is_expanded", "c02_statement_after_leading_semicolon_is_lost", "c02_units_dropped_around_anonymous_main", "c02_char_selector_placeholder_leak", "c02_char_selector_kind_len_reordered",
+                           "c02_semicolon_join_lowercases_names", "c02_initialiser_after_parenthesised_char_length"]),
     "C06": dict(level="other",
                 claim="exception-type contracts: Program.__new__ lets only FortranSyntaxError out (given the stated contract of the parse "
                       "below it), FortranSyntaxError construction cannot raise IndexError under the line bookkeeping invariant, reader "
@@ -39,7 +39,7 @@ PROPS = {
                 explanation="[P] T1-T6, U8a, F3 over ghost scope stack tied to _current_scope/_parent by REP; rule-call protocol G3 assumed for callees",
                 enum=["enum_registries.py --only C09", ("enum_frame.py", ["frame.inventory", "frame.scope_calls"]),
                       ("enum_block_table.py", ["F12.table#start", "F12.table#flags", "F12.table#labelled"])],
-                witnesses=["c09_internal_syntax_error_leaves_scope", "c09_main_program0_leaves_scope", "c09_failing_parse_removes_existing_table",
+                witnesses=["c09_system_exit_leaves_the_scope_open", "c09_internal_syntax_error_leaves_scope", "c09_main_program0_leaves_scope", "c09_failing_parse_removes_existing_table",
                            "c09_tables_of_earlier_units_remain_after_failure"]),
     "C08": dict(level="other", enum=["enum_block_table.py", "bounded_trees.py --only C08"],
                 claim="BlockBase.match proved to return a block with an end class only if its END was found with agreeing names and labels "
@@ -81,7 +81,8 @@ PROPS = {
                 claim="comment handling contracts: Comment.__new__ consumes exactly one comment item or restores the reader, Comment/Directive.init keep "
                       "the comment text and item, BlockBase.match restores every consumed item on failure and keeps content in item order",
                 trusted=TRUSTED,
-                explanation="[P] F4, F3 (add_comments_includes_directives, match_comment_or_include), U8b/f, handle_inline_comment; [B] comment placements incl. comments inside continued literals"),
+                explanation="[P] F4, F3 (add_comments_includes_directives, match_comment_or_include), U8b/f, handle_inline_comment; [B] comment placements incl. comments inside continued literals",
+                witnesses=["c11_inline_directive_after_a_literal_becomes_a_directive_node"]),
     "C12": dict(level="other", enum=["bounded_layout.py --only C12"],
                 claim="put-back half proved: physical-line stack (put/get_single_line, get_next_line keep the count invariant), item queue (put_item "
                       "prepends to the innermost reader), rule calls that report no match leave the item stream unchanged (Base.__new__, Comment, "
@@ -94,7 +95,7 @@ PROPS = {
                       "one CppDirective item whose span is the physical lines taken, without exception at end of input",
                 trusted=TRUSTED,
                 explanation="[P] R13, R14, F3 (the collector takes every leading comment/include/directive in any order); [B] directive insertion at every boundary, also among retained comments; Cpp_* rules not under contract",
-                witnesses=["c14_directive_backslash_at_eof", "c14_directive_with_semicolon", "c14_directive_before_anonymous_main_program"]),
+                witnesses=["c14_include_with_angle_brackets_is_reprinted_with_quotes", "c14_comment_after_ifdef_is_rejected", "c14_directive_between_components_splits_the_component_part", "c14_directive_backslash_at_eof", "c14_directive_with_semicolon", "c14_directive_before_anonymous_main_program"]),
     "C18": dict(level="other", enum=["bounded_trees.py --only C18"],
                 claim="deep-copy protocol: Base.__getnewargs__ returns (string, None, True) and every class with its own __new__ (Base, Comment, "
                       "Directive; Program delegates) returns a fresh uninitialised instance for those arguments without touching a reader",
@@ -114,35 +115,38 @@ PROPS = {
                       "one class of valid inputs is rejected (known finding)",
                 trusted="reference precedence parser spec/reference.py written from the standard; bounded expression depth",
                 explanation="[P] U11a BinaryOpBase.match (pattern and string operators), UnaryOpBase.match; [E] F7 table; [B] Expr vs reference; Pattern.rsplit/lsplit trusted (regex split)",
-                witnesses=["c03_defined_binary_op_then_dotted_operator"]),
+                witnesses=["c03_identifier_ending_in_digit_e_is_taken_for_an_exponent", "c03_defined_binary_op_then_dotted_operator"]),
     "C04": dict(level="other", enum=["bounded_layout.py --only C04,C12"],
                 claim="label and construct-name extraction and the quote-aware tokenisers are proved; the free-form continuation logic is decided by a "
                       "bounded layout-independence check (every continuation point, leading-& choice, comment/blank insertion, ';' joins over 8 statements)",
                 trusted=TRUSTED + "; bounded layout space",
                 explanation="[P] R3, R4, S1, S2, handle_inline_comment; [B] layouts (bounded_layout.py); get_source_item free branch not under contract",
-                witnesses=["c04_ampersand_inside_continued_literal"]),
+                witnesses=["c04_continuation_between_construct_name_and_colon", "c04_ampersand_inside_continued_literal"]),
     "C05": dict(level="other", enum=["bounded_layout.py --only C05"],
                 claim="the fixed-form column predicates (_is_fix_cont, _is_fix_comment) and line normalisation are proved; detection and the fixed-form "
                       "reader branch are decided by a bounded check over fixed renderings (continuation mark, comment style, cut position); three "
                       "classes of sources are mis-detected (known findings)",
                 trusted=TRUSTED + "; bounded rendering space",
                 explanation="[P] R1, R2, R7; [B] detection + fixed branch",
-                witnesses=["c05_fixed_comment_with_ampersand", "c05_labelled_first_statement", "c05_first_statement_starting_with_c"]),
+                witnesses=["c05_blanks_at_the_end_of_a_continued_fixed_form_literal_are_lost", "c05_fixed_comment_with_ampersand", "c05_labelled_first_statement", "c05_first_statement_starting_with_c",
+                           "c05_zero_in_column_6_is_not_a_continuation"]),
     "C01": dict(level="other", enum=["bounded_trees.py --only C01"],
                 claim="round trip decided on a catalogue of programs (print, re-parse, same tree, same text; both standards, three comment modes); "
                       "label / construct-name re-extraction proved; the generic match/tostr lemmas are not yet under contract",
                 trusted=TRUSTED + "; bounded catalogue",
-                explanation="[B] round trip of the catalogue and of one program per corpus statement; [P] R3, R4, StmtBase/BlockBase.tofortran"),
+                explanation="[B] round trip of the catalogue and of one program per corpus statement; [P] R3, R4, StmtBase/BlockBase.tofortran",
+                witnesses=["c01_p_edit_descriptor_without_comma_changes_tree_on_reparse"]),
     "C07": dict(level="other", enum=["bounded_trees.py --only C07"],
                 claim="message construction proved (FortranSyntaxError names linecount and quotes source_lines[linecount-1]; line bookkeeping invariant kept "
                       "by the line buffers); the location for every replaced statement of four catalogue programs checked on the real parser",
                 trusted=TRUSTED + "; bounded catalogue",
-                explanation="[P] U1, G2 (R7, every physical line drawn is cached and counted); [B] garbage at every statement, with control characters and continued statements before it"),
+                explanation="[P] U1, G2 (R7, every physical line drawn is cached and counted); [B] garbage at every statement, with control characters and continued statements before it",
+                witnesses=["c07_error_inside_include_file_is_located_at_the_include_line"]),
     "C13": dict(level="other", enum=["bounded_trees.py --only C13", ("enum_frame.py", ["frame.inventory"])],
                 claim="put_item proved to reach the innermost include reader; FortranReaderBase.next proved to open the first match of the include path with the "
                       "parent's options and to hand an unresolved include on unchanged; include resolution compared with inlined text for every split of a small "
                       "program into main text and include file (file and string readers, two include directories, first match wins); unresolved include kept",
                 trusted=TRUSTED + "; bounded catalogue; file system behaviour",
                 explanation="[P] R9a, R10 (next); [B] include scenarios in temporary directories (splits, histories, reader options)",
-                witnesses=["c13_include_redetects_format"]),
+                witnesses=["c13_include_file_with_lines_starting_with_c_is_read_as_comments", "c13_include_redetects_format", "c13_include_drops_omp_conditional_option", "c13_directory_named_like_the_include_file"]),
 }
